@@ -15,6 +15,7 @@ import (
 // (a length field of the protocol, the buffer size) reports bytes nobody sent or cuts the first pushed segment.
 func c14PayloadIsWhatWasRead(c *Ctx) {
 	const rule = "decoder-payload-read-count"
+	c.Explanation += " The port decoders report buff[:n] with n a (sum of) Read result(s)."
 	p := c.P
 	isConn := func(t types.Type) bool {
 		n := NamedOf(t)
